@@ -4,7 +4,7 @@ CONSTANTS
   Tag <- Tag2
   RevTag <- Rev2
   Delta = 10
-  DaySteps <- Days6
+  DaySteps <- Days4
   AgeCap = 91
   MaxRefresh = 4
   MaxRestarts = 1
